@@ -14,6 +14,7 @@
 (* All invariants of Cache.tla are evaluated on every state of the trace.  *)
 (***************************************************************************)
 EXTENDS Cache, Json, IOUtils
+LOCAL INSTANCE Config
 
 CONSTANT Cmp      \* subset of {"store","em","costs","chan","life","met","cbs","out"}
 
@@ -153,6 +154,10 @@ TEnv ==
     \* an arm that was not ready, the end of a run: nothing happens, but the state must still agree
     \* popularity is abstract in Cache.tla: a recorded change of it is a stuttering step
     \/ Is("Bump") /\ UNCHANGED vars /\ PostOKStutter
+    \* the policy worker applying a batch of recorded lookups (Ring.tla): no state of this specification
+    \/ Is("LRecv") /\ UNCHANGED vars /\ PostOKStutter
+    \* builder validation (Config.tla): the recorded result of finalize() must be the specified one
+    \/ Is("Finalize") /\ UNCHANGED vars /\ Ev.res = FinalizeResult(Ev.nc, Ev.max, Ev.bufsize)
     \/ Is("Skip") /\ UNCHANGED vars /\ PostOKStutter
     \/ Is("End") /\ UNCHANGED vars /\ PostOKStutter
     \* a client that is blocked for ever: only explainable by the known finding D6
